@@ -6,6 +6,16 @@ from .ghosts import DOC_HALVING_INTERVAL, DOC_MAX_SUPPLY
 CS = ContractSet()
 
 
+def _vte():
+    import skepticoin.consensus as c
+    from pyvc.stmts import AnyException
+    return [(c.ValidateTransactionError, None), (AnyException, None)]
+
+
+# callers see two kinds of rejection: the validator's own ValidateTransactionError, or any other exception
+RAISES_VTE_OR_OTHER = _vte()
+
+
 @CS.contract("skepticoin.consensus.get_block_subsidy", props=["C16", "C02", "C12"])
 def _(c):
     c.requires("height >= 0")
@@ -68,6 +78,7 @@ BY_ITSELF = [
 def _(c):
     c.local(output_references=SET(CLS('OutputReference')))
     c.predicate("tx_by_itself", ["transaction"])
+    c.raise_cases = RAISES_VTE_OR_OTHER
     c.ensures(*BY_ITSELF)
     # one-sided on purpose: "rejects only if" would need an exact characterisation of the seen-set (an exists-invariant);
     # the properties only say "accepted only if", and callers use the predicate tx_by_itself for the other direction
@@ -100,6 +111,7 @@ IN_STATE = [
 def _(c):
     c.let(U="coinstate.unspent_transaction_outs_by_hash[at_hash]")
     c.predicate("tx_in_state", ["transaction", "at_hash", "coinstate"])
+    c.raise_cases = RAISES_VTE_OR_OTHER
     c.ensures("at_hash in coinstate.unspent_transaction_outs_by_hash", *IN_STATE)
     # one-sided ("accepted only if"); the other direction is carried by the predicate tx_in_state where callers need it
     c.loop(0).invariant(
@@ -143,6 +155,7 @@ DISTINCT_REFS = (
 def _(c):
     c.local(seen_output_references=SET(CLS('OutputReference')))
     c.predicate("no_dup_refs", ["transactions"])
+    c.raise_cases = RAISES_VTE_OR_OTHER
     # no output is spent twice inside the list (across and within transactions)
     c.ensures(DISTINCT_REFS % {'A': 'len(transactions)'})
     outer = c.loop(0).index('a0')
